@@ -19,13 +19,14 @@ var extModelDoc = map[string]string{}
 
 // packages whose functions are side-effect free as far as repo objects are concerned (result arbitrary, heap unchanged)
 var purePkgs = []string{"fmt", "strings", "strconv", "errors", "time", "math", "unicode", "unicode/utf8", "unicode/utf16", "context", "bytes", "sort", "slices", "maps",
-	"encoding/hex", "encoding/base64", "hash/maphash", "github.com/hashicorp/golang-lru/v2", "math/rand", "math/bits", "reflect", "os", "regexp", "sync/atomic", "path",
+	"encoding/hex", "encoding/base64", "hash/maphash", "github.com/hashicorp/golang-lru/v2", "go.mongodb.org/mongo-driver", "go.mongodb.org/mongo-driver/v2", "math/rand", "math/bits", "reflect", "os", "regexp", "sync/atomic", "path",
 	"github.com/yorkie-team/yorkie/server/logging", "go.uber.org/zap", "github.com/yorkie-team/yorkie/server/profiling/prometheus",
 	"github.com/yorkie-team/yorkie/server/profiling", "google.golang.org/protobuf/types/known/timestamppb", "github.com/rs/xid",
 	"connectrpc.com/connect", "github.com/yorkie-team/yorkie/api/types/events"}
 
 // pure external functions that are also deterministic (modelled as uninterpreted functions of their arguments)
-var deterministicPure = map[string]bool{"hash/maphash.Comparable": true}
+var deterministicPure = map[string]bool{"hash/maphash.Comparable": true, "(time.Time).IsZero": true, "(time.Time).Equal": true, "(time.Time).Before": true, "(time.Time).After": true,
+	"strings.HasPrefix": true, "strings.Contains": true, "strings.HasSuffix": true}
 
 func isPurePkg(path string) bool {
 	for _, p := range purePkgs {
@@ -111,10 +112,16 @@ func (e *Exec) callVal(s *State, cc *ssa.CallCommon, args []Val, setRes func(*St
 			// a pure function of its (scalar) arguments: an uninterpreted function, so equal arguments give equal results
 			var terms, sorts []string
 			okAll := true
+			off := 0
+			if sig.Recv() != nil {
+				off = 1
+			}
 			for i, a := range args {
 				var t types.Type
-				if i < sig.Params().Len() {
-					t = sig.Params().At(i).Type()
+				if i < off {
+					t = sig.Recv().Type()
+				} else if i-off < sig.Params().Len() {
+					t = sig.Params().At(i - off).Type()
 				}
 				if t == nil {
 					okAll = false
@@ -623,6 +630,14 @@ func (e *Exec) resolveModifies(ents []ModEntry, all bool, env *SpecEnv) *modSet 
 					m.add(p, famSig{nil, so}, func([]string) string { return "true" })
 				})
 			}
+		case "db":
+			t := memTables[ent.Field]
+			if t == nil {
+				e.abort("modifies db(%s): unknown table", ent.Field)
+			}
+			e.memResolveAll()
+			m.add(memFam("db", t, "has"), famSig{t.keySorts(), "Bool"}, func([]string) string { return "true" })
+			m.add(memFam("db", t, "row"), famSig{t.keySorts(), "Ref"}, func([]string) string { return "true" })
 		case "bt":
 			ref := env.refOf(env.eval(ent.Obj))
 			m.add("$bt.has", famSig{[]string{"Ref", "Int"}, "Bool"}, func(a []string) string { return fmt.Sprintf("(= %s %s)", a[0], ref) })
@@ -746,6 +761,11 @@ func (e *Exec) contractEnv(con *Contract, cur, old *State, args []Val) *SpecEnv 
 	for i, n := range con.Params {
 		if i < len(args) {
 			env.vars[n] = TV{args[i], con.ParamTypes[i]}
+		}
+	}
+	for alias, j := range con.ParamAliases {
+		if j < len(args) {
+			env.vars[alias] = TV{args[j], con.ParamTypes[j]}
 		}
 	}
 	return env
